@@ -51,8 +51,12 @@ func peerConfigs(n int) []*vconfig.PeerConfig {
 // a (signer, hash) pair stable inside one process and saves time.
 var sigCache sync.Map
 
-func signHash(pos int, h common.Uint256) []byte {
-	k := fmt.Sprintf("%d/%x", pos, h[:])
+func signHash(pos int, h common.Uint256) []byte { return signHashV(pos, h, 0) }
+
+// signHashV: variant v > 0 is ANOTHER genuine signature of the same signer over the same hash
+// (ECDSA is randomised: a re-signed message carries different signature bytes).
+func signHashV(pos int, h common.Uint256, v int) []byte {
+	k := fmt.Sprintf("%d/%x/%d", pos, h[:], v)
 	if v, ok := sigCache.Load(k); ok {
 		return append([]byte(nil), v.([]byte)...)
 	}
